@@ -12,6 +12,9 @@ A *history* is a JSON-able list of steps executed by the scanner's main():
 script events of one call, consumed by the transport:
   ["D", hex] reply bytes   ["T"] read times out   ["C"] read raises ConnectionResetError
   ["E"] read returns b""   ["WC"] the next write raises BrokenPipeError
+  ["H"] the read never returns (only in a step with "cut": true, whose call the scanner wraps in
+        asyncio.wait_for(..., 0.02) the way ECU.wait_for_ecu wraps its pings: the call is cancelled while
+        the request is on the wire and the run goes on; recorded as out = "cut")
   (exhausted script: read times out)
 Abort: `cancel_at=k` cancels the task running entry_point at the k-th await point
 of the transport / of main (every write and read has a point before and after
@@ -189,6 +192,10 @@ class C11Transport(BaseTransport, scheme="c11"):
         kind = ev[0]
         data = bytes.fromhex(ev[1]) if kind == "D" else None
         env.rec(e="R", k=kind, data=None if data is None else data.hex(), i=None if call is None else call["i"])
+        if kind == "H":
+            assert call is not None
+            call["hung"] = True
+            await asyncio.Event().wait()  # until the caller's own timeout cancels the call
         await env.point("read-post")
         if kind == "T":
             raise TimeoutError("scripted: read timed out")
@@ -229,12 +236,17 @@ class HistScanner(UDSScanner):
                 st=env.state(), cls=spec["cls"])
         out, exc = "ret", None
         try:
-            await self.ecu.request(req, cfg)
+            if step.get("cut"):
+                await asyncio.wait_for(self.ecu.request(req, cfg), 0.02)
+            else:
+                await self.ecu.request(req, cfg)
         except asyncio.CancelledError:
             out = "cancel"
             raise
         except Exception as e:  # noqa: BLE001
             out, exc = "exc", repr(e)[:200]
+            if call.get("hung") and isinstance(e, TimeoutError):
+                out = "cut"
         except BaseException:
             out = "cancel"
             raise
